@@ -48,13 +48,29 @@ def memlen(prog, t, depth=0):
             return memlen(prog, t[2], depth + 1) and strip(t[3])[0] == "const" or (memlen(prog, t[3], depth + 1) and strip(t[2])[0] == "const")
         return memlen(prog, t[2], depth + 1) and memlen(prog, t[3], depth + 1)
     if t[0] == "phi":
-        return all(memlen(prog, a, depth + 1) for a in t[1])
+        # a bare unresolved local among the alternatives is the loop-carried accumulator itself (`acc = if c { x } else
+        # { acc }`): it contributes no value of its own
+        alts = [a for a in _flat_phi(t) if strip(a)[0] != "local"]
+        return bool(alts) and all(memlen(prog, a, depth + 1) for a in alts)
     if t[0] == "field":
         # a private field that is only ever assigned memory lengths (e.g. prototype_len)
         return t[2] in ("prototype_len",)
     if t[0] == "local":
         return False
     return False
+
+
+def _flat_phi(t):
+    out = []
+    for a in t[1]:
+        a2 = strip(a)
+        while a2[0] == "cast":
+            a2 = strip(a2[2])
+        if a2[0] == "phi":
+            out.extend(_flat_phi(a2))
+        else:
+            out.append(a)
+    return out
 
 
 def _iter_items_memlen(prog, it, depth):
@@ -417,7 +433,8 @@ def _fill_bound_ok(prog, iv, f, bnd_tree):
                 s = strip(tr)
                 if s[0] == "call" and s[1].rsplit("::", 1)[-1] == "unwrap_or" and len(s[2]) == 2:
                     s = ("phi", (strip(s[2][0]), strip(s[2][1])))      # Some payload or the default
-                alts = s[1] if s[0] == "phi" else (s,)
+                alts = _flat_phi(s) if s[0] == "phi" else (s,)
+                alts = [a for a in alts if strip(a)[0] != "local"] or list(alts)
                 sentinels = [a for a in alts if a[0] == "const" and isinstance(a[2], int) and a[2] > CAP]
                 others = [a for a in alts if a not in sentinels]
                 excluded = all(v is not None and not (v[0] <= a[2] <= v[1]) for a in sentinels)
